@@ -118,7 +118,7 @@ func swapCase(r *rand.Rand, s string) string {
 
 var wrongKinds = []string{`"str"`, `12`, `1.5`, `true`, `false`, `[]`, `[1]`, `{}`, `{"a":1}`, `"12"`, `""`, `-1`, `[null]`, `"true"`}
 var boundaryNums = []string{"127", "128", "-128", "-129", "255", "256", "32767", "32768", "-32769", "65535", "65536", "2147483647", "2147483648", "-2147483649", "4294967295", "4294967296",
-	"9223372036854775807", "9223372036854775808", "-9223372036854775808", "-9223372036854775809", "18446744073709551615", "18446744073709551616", "1e400", "-1e400", "3.5e38", "1e39", "0.1e-400", "1e-400", "-0"}
+	"9223372036854775807", "9223372036854775808", "-9223372036854775808", "-9223372036854775809", "18446744073709551615", "18446744073709551616", "20000000000000000000", "30000000000000100000", "90000000000000000000", "-10000000000000000000", "100000000000000000000", "1e400", "-1e400", "3.5e38", "1e39", "0.1e-400", "1e-400", "-0"}
 var numForms = []func(string) string{
 	func(s string) string { return s + ".0" },
 	func(s string) string { return s + "e0" },
